@@ -6,6 +6,8 @@ ENGINES = [
     {"name": "index driver", "path": "drivers/index_driver.cpp", "serves_properties": ["C11"], "kind_free_text": "exhaustive per-level enumeration of cells and groups through the public index API vs reference geometry"},
     {"name": "E4 history search", "path": "drivers/hist_driver.cpp", "serves_properties": ["C12", "C13", "C17"], "kind_free_text": "BFS over operation histories replayed on fresh real trees, canonical state keys"},
     {"name": "p2p driver", "path": "drivers/p2p_driver.cpp", "serves_properties": ["C20"], "kind_free_text": "count lattice x layouts vs long double"},
+    {"name": "memory driver", "path": "drivers/mem_driver.cpp", "serves_properties": ["C14"], "kind_free_text": "history BFS on TbfMemoryBlock + view trees over byte copies"},
+    {"name": "tsm/periodic driver", "path": "drivers/tsmper_driver.cpp", "serves_properties": ["C09", "C10"], "kind_free_text": "enumeration of source/target patterns and periodic configurations with the exact kernel"},
     {"name": "E6 runner", "path": "tools/check.py", "serves_properties": [], "kind_free_text": "builds drivers from /repo, runs slices on all cores, merges, applies known_findings.json, writes evidence and replays"},
 ]
 NOTES = "See DESIGN.md. All checks rebuild their drivers from /repo/src on every run; scratch output only under /verif/build."
@@ -48,5 +50,12 @@ CLAIMED["C20"] = {"engine": "p2p driver", "text": "Every pair of counts of the c
     "note": "trusted: x87 long double as reference; tolerance 16(n+4)eps of the sum of absolute contributions; scalar path only (Inastemp absent)",
     "technique": "bounded-exhaustive enumeration of argument shapes against an extended-precision reference"}
 
+CLAIMED["C14"] = {"engine": "memory driver", "text": "BFS over histories of memory-block operations for 11 layouts against a vector-per-block model, and, for every group of every enumerated tree, raw-memory views over byte copies compared accessor by accessor plus the sequential executor run on a tree made only of such views.", "design_ref": "DESIGN.md section 5 C14",
+    "note": "trusted: reference model (vector per block); over-aligned element types outside the alphabet", "technique": "explicit-state search over operation histories (bounded depth) + bounded-exhaustive enumeration of trees, against a reference model"}
+CLAIMED["C10"] = _tree("Every small occupancy pattern x face motifs x dyadic boxes x extra levels x groupings through the documented four-call periodic sequence (single tree and target/source top tree); per ordered pair the multiplicity must equal the number of images in the reported interval and the exact polynomial potential the closed-form image sum.", "DESIGN.md section 5 C10")
+CLAIMED["C10"]["engine"] = "tsm/periodic driver"
+CLAIMED["C09"] = {"engine": "tsm/periodic driver + E3 schedule explorer", "text": "All pairs of (source pattern, target pattern) of small trees through the sequential target/source executor with the exact kernel, and the OpenMP target/source executor under the schedule explorer exactly as C03.", "design_ref": "DESIGN.md section 5 C09",
+    "note": "as C01 and C03", "technique": "bounded-exhaustive enumeration of source/target shapes + stateless model checking of schedules under the mock task runtime"}
+
 _pending = "check not built yet in this round (planned, see DESIGN.md section 11); not claimed until it runs end to end"
-NOT_APPLICABLE = {p: _pending for p in ["C04", "C05", "C09", "C10", "C14", "C15", "C18", "C19"]}
+NOT_APPLICABLE = {p: _pending for p in ["C04", "C05", "C15", "C18", "C19"]}
